@@ -8,7 +8,10 @@ EXTENDS Polygon, Json
 
 CONSTANTS G,        \* lattice points 0..G-1 in each direction (doubled: 0, 2, .., 2(G-1))
           MaxV,     \* largest number of vertices
-          MinEmit   \* cases with fewer vertices are checked but not emitted
+          MinEmit,  \* cases with fewer vertices are checked but not emitted
+          EmitSel,  \* TRUE: also emit the marks expected from db_polygon with a previous selection
+          Canon     \* TRUE: only vertex sequences starting at their lexicographically smallest vertex
+                    \* (the conformance run re-creates the other starting vertices by rotation)
 
 VARIABLE p
 
@@ -21,9 +24,12 @@ NQ == NC * NC
 QSeq == TLCEval([i \in 1..NQ |-> <<QCoord(((i - 1) \div NC) + 1), QCoord(((i - 1) % NC) + 1)>>])
 
 Init == /\ p = <<>>
-        /\ PrintT(ToJson([k |-> "meta", G |-> G, maxv |-> MaxV, q |-> QSeq]))
+        /\ PrintT(ToJson([k |-> "meta", G |-> G, maxv |-> MaxV, canon |-> Canon, q |-> QSeq, noz |-> NoZ,
+                          prev |-> [i \in 1..NQ |-> IF PrevActive(i) THEN 1 ELSE 0]]))
+LexLess(a, b) == a[1] < b[1] \/ (a[1] = b[1] /\ a[2] < b[2])
 AddVertex(v) == /\ Len(p) < MaxV
                 /\ ChainOK(p, v)
+                /\ (Canon /\ Len(p) >= 1) => LexLess(p[1], v)
                 /\ p' = Append(p, v)
 Next == \E v \in Lattice : AddVertex(v)
 Spec == Init /\ [][Next]_p
@@ -45,6 +51,9 @@ Inv_Agree ==
     IN /\ \A i \in off : Alg(QSeq[i]) = e[i]
        /\ \/ Len(p) < MinEmit
           \/ PrintT(ToJson([k |-> "poly", v |-> p, exp |-> e,
+                            sel |-> IF EmitSel
+                                    THEN [i \in 1..NQ |-> IF e[i] = 2 THEN 2 ELSE DbMark(PrevActive(i), TRUE, e[i] = 1)]
+                                    ELSE <<>>,
                             ccw |-> IF Area2(p) > 0 THEN 1 ELSE 0,
                             convex |-> IF Convex(p) THEN 1 ELSE 0,
                             flat |-> IF HasFlatVertex(p) THEN 1 ELSE 0,
@@ -67,9 +76,13 @@ Maps == { <<-1, 0, 0, 1, 0, 0>>, <<1, 0, 0, -1, 0, 0>>, <<0, 1, 1, 0, 0, 0>>, <<
           <<1, 1, 0, 1, 0, 0>>, <<1, -2, 0, 1, 0, 0>>, <<1, 3, 0, 1, 0, 0>>,
           <<1, 0, 1, 1, 0, 0>>, <<1, 0, -1, 1, 0, 0>>, <<1, 0, 2, 1, 0, 0>>,
           <<1, 0, 0, 1, 1000, -778>>, <<2, 0, 0, 2, 0, 0>> }
+ExpOf(s, mx, q) == IF OnBoundary(s, q) THEN 2 ELSE IF RefInsideM(s, mx, q) THEN 1 ELSE 0
 Inv_Affine ==
-  IsPolygon => \A m \in Maps :
-     LET pm == MapPoly(m, p) IN
-     \A i \in 1..NQ : OnBoundary(p, QSeq[i]) = OnBoundary(pm, MapPt(m, QSeq[i]))
-                      /\ (OnBoundary(p, QSeq[i]) \/ RefInside(pm, MapPt(m, QSeq[i])) = RefInside(p, QSeq[i]))
+  IsPolygon =>
+    LET mx == MaxX(p)
+        e == TLCEval([i \in 1..NQ |-> Exp(mx, QSeq[i])])
+    IN \A m \in Maps :
+         LET pm == TLCEval(MapPoly(m, p))
+             mxm == MaxX(pm)
+         IN SimplePolygon(pm) /\ \A i \in 1..NQ : ExpOf(pm, mxm, MapPt(m, QSeq[i])) = e[i]
 =============================================================================
